@@ -296,6 +296,13 @@ def h_numeric_inverse(h, name, e, direction):
     else:
         h.claim(f'C10/numeric/{name}/start-vector-history-independent',
                 h.eq(numpy.asarray(second_start, dtype=object).item(), numpy.asarray(first_start, dtype=object).item()))
+    if raised is None:
+        # a scalar goes in, a scalar (or 0-d array) comes out
+        shape = numpy.shape(back) if not symx.is_sym(back) else ()
+        h.claim(f'C10/numeric/{name}/scalar-in-scalar-out', shape == (), info=f'shape {shape}')
+        if shape != ():
+            return
+        back = back.item() if isinstance(back, numpy.ndarray) else back
     if raised is None and name != 'WVST':
         rt = direct(back)
         h.claim(f'C10/numeric/{name}/direct(inverse(y))==y', h.close(rt, target, 1e-9))
